@@ -140,6 +140,9 @@ def run(ck):
     # ---- clause 1: never early, at the wheel ------------------------------------------------------------
     ne = ck.body("1", "TimerWheel::next_expired")
     pops = [cs for cs in T.calls(ne, name=("pop", "remove")) if T.path_has(ne, cs.args[0], ".heap")]
+    # `PeekMut::pop(guard)` on a guard obtained from `heap.peek_mut()` pops the same (greatest) element
+    pms = [c.bb for c in T.calls(ne, name="peek_mut") if T.path_has(ne, c.args[0], ".heap")]
+    pops += [cs for cs in T.calls(ne, name="pop") if cs.f and "PeekMut" in (cs.f.get("path") or "") and (T.resolves_to_call(ne, cs.args[0], pms) or T.tainted_by_call(ne, cs.args[0], pms))]
     ck.floor("1", "next_expired: heap pop", len(pops), 1)
     cmps = []
     for body in [ne] + f.closures_of(ne):
@@ -303,9 +306,29 @@ def run(ck):
             ck.verdict(bool(rm) and bad is None, "5", "T4-guarded-by", pe, "TimeoutAction::Drop=>Remove", "TimeoutAction::Drop returns PostAction::Remove", "TimeoutAction::Drop does not lead to PostAction::Remove", site=pe.where(cb.bb))
     rr = ck.opt_body("<Timer as EventSource>::reregister")
     if rr is not None:
-        u = [cs for cs in rr.calls() if cs.name == "unregister" and not rr.is_cleanup(cs.bb)]
-        r_ = [cs for cs in rr.calls() if cs.name == "register" and not rr.is_cleanup(cs.bb)]
+        # (.. through the methods, or - helpers inlined - directly: the old registration is taken out (its cancel is the
+        # subject of `reregister-retires-old-arming`) before anything is inserted)
+        u = [cs for cs in rr.calls() if (cs.name == "unregister" or (cs.name in ("take", "replace") and cs.args and T.path_has(rr, cs.args[0], ".registration"))) and not rr.is_cleanup(cs.bb)]
+        r_ = [cs for cs in rr.calls() if (cs.name == "register" or (cs.name in ("insert", "insert_reuse") and cs.f and "TimerWheel" in (cs.f.get("path") or ""))) and not rr.is_cleanup(cs.bb)]
         ck.verdict(bool(u) and bool(r_) and all(rr.dominates(u[0].bb, x.bb) for x in r_), "5", "T3-must-precede", rr, "reregister=unregister-then-register", "re-arming first cancels the previous arming", "Timer::reregister does not cancel the previous arming before registering again (two live entries for one timer)", site=rr.where())
+        # .. and it always arms: the only way around the (re)registration is the timer having no deadline at all (a timer
+        # that holds no registration - its deadline was unrepresentable, or it was never armed - is armed by
+        # set_deadline + update like any other)
+        nodl = []
+        for sw_ in T.switches_on_expr(rr, lambda e: e[0] == "discr"):
+            e_ = rr.expr(rr.blocks[sw_]["term"]["on"], at=sw_)
+            if any(str(x).endswith(".deadline") or ".deadline" in [y for y in p_] for r0, p_ in rr.resolve(e_[2]) for x in p_[-2:]):
+                nodl += T.discr_edges(rr, sw_, 0)
+        okr = [i_ for i_, j_, st_ in rr.statements() if st_["s"] == "assign" and st_["pl"]["l"] in T.ret_locals(rr) and st_["rv"]["r"] == "agg" and st_["rv"].get("variant") == "Ok" and not rr.is_cleanup(i_)]
+        # (error exits - `?` on the cancellation - are not successful paths)
+        errx = [c.bb for c in rr.calls() if c.name == "from_residual" and not rr.is_cleanup(c.bb)]
+        erre = []
+        for c in rr.calls():
+            if c.name in ("unregister", "cancel") and not rr.is_cleanup(c.bb):
+                ok_e_, err_e_, _d = T.result_split(rr, c.bb)
+                erre += list(err_e_)
+        bad_ = T.t2_all_exits(rr, [0], [x.bb for x in r_], removed_edges=nodl + erre, also_removed=errx) if r_ else [0]
+        ck.verdict(bad_ is None, "5", "T2-all-exits", rr, "reregister=>armed-unless-no-deadline", "every successful path through reregister (re)arms the timer, except when it has no deadline", "Timer::reregister can succeed without arming a timer that has a deadline (e.g. it only re-arms a timer that currently holds a registration): an arming made by set_deadline + update on a timer that was not armed never fires", site=rr.where(), path=path_descr(rr, bad_) if bad_ and bad_ != [0] else None)
 
     # every registration of a timer that has a deadline arms it in the wheel of the loop it is registered with: the only
     # way around the insert is "no deadline" (a stored registration proves nothing - it may point into the wheel of a
